@@ -4,7 +4,7 @@ import re
 
 from .. import rules_filters as RF
 from .. import rx
-from ..astutil import Guards, src, is_name, is_attr, local_defs
+from ..astutil import Guards, src, is_name, is_attr, local_defs, enum_paths
 from ..cg import get_cg
 from ..fold import TT, NotConst
 from ..model import own_nodes, Cls
@@ -31,6 +31,8 @@ SERIALIZER_REGIONS = [
     ('single-quoted string', "'a  \n b'"),
     ('double-quoted name', '"a  \n b"'),
     ('single-quoted string with doubled quote', "'a''  \n b'"),
+    ('single-quoted string with backslash-escaped quote', "'a\\'  \n b'"),
+    ('double-quoted name with backslash-escaped quote', '"a\\"  \n b"'),
 ]
 
 
@@ -186,7 +188,7 @@ def check_registry(ctx):
     ctx.need(n >= 10, f'only {n} dispatch handlers found')
 
 
-def check_serializer(ctx):
+def check_serializer(ctx, rid='R6.5', regions=None):
     repo, folder = ctx.repo, ctx.folder
     u = repo.mod('sqlparse.utils')
     try:
@@ -197,13 +199,14 @@ def check_serializer(ctx):
     f = repo.func('sqlparse.filters.others.SerializerUnicode.process')
     text = src(f.node)
     shape = "split_unquoted_newlines(stmt)" in text and "'\\n'.join((line.rstrip() for line in lines))" in text
-    ctx.ob('R6.5', 'serializer-shape', f'{f.mod.relpath}:{f.node.lineno}',
+    ctx.ob(rid, 'serializer-shape', f'{f.mod.relpath}:{f.node.lineno}',
            'SerializerUnicode joins split_unquoted_newlines(stmt) lines with "\\n" after rstrip()', shape, text[-120:])
     g = repo.func('sqlparse.utils.split_unquoted_newlines')
+    check_split_conservation(ctx, g, split_rx, rid)
     srx = re.compile(split_rx.pattern, split_rx.flags)
     lrx = re.compile(line_rx.pattern, line_rx.flags)
     T = get_tables(ctx)
-    for name, lexeme in SERIALIZER_REGIONS:
+    for name, lexeme in (regions or SERIALIZER_REGIONS):
         toks = T.lex_all(lexeme)
         one = len(toks) == 1 or (len(toks) == 2 and toks[1][1] in ('\n',))
         # the serializer's line model applied to the lexeme (constants from utils.py on a constant string)
@@ -217,6 +220,43 @@ def check_serializer(ctx):
                 lines[-1] += piece
         out = '\n'.join(l.rstrip() for l in lines)
         body_kept = out == lexeme or (lexeme.endswith('\n') and out == lexeme[:-1].rstrip() + '\n' and False)
-        ctx.ob('R6.5', f'region:{name}', f'{u.relpath}:{u.assigns["SPLIT_REGEX"].lineno}',
+        ctx.ob(rid, f'region:{name}', f'{u.relpath}:{u.assigns["SPLIT_REGEX"].lineno}',
                f'a {name} (one lexer token: {one}) passes the serializer byte-identical', out == lexeme,
                f'{lexeme!r} is rewritten to {out!r}: SPLIT_REGEX does not treat this region as atomic, so line ends / trailing blanks inside it are normalised')
+
+
+def check_split_conservation(ctx, g, split_rx, rid='R6.5'):
+    """split_unquoted_newlines keeps every character except line ends: it iterates SPLIT_REGEX.split(text)
+    (re.split with a capturing group returns the matches AND the text between them), or the regex is total."""
+    loc = f'{g.mod.relpath}:{g.node.lineno}'
+    calls = [n for n in own_nodes(g.node) if isinstance(n, ast.Call) and isinstance(n.func, ast.Attribute) and is_name(n.func.value, 'SPLIT_REGEX')]
+    kinds = sorted({c.func.attr for c in calls})
+    uses_split = kinds == ['split']
+    total = True
+    witness = None
+    if not uses_split:
+        # totality: every single character must be matched by the regex on its own
+        cre = re.compile(split_rx.pattern, split_rx.flags)
+        for ch in ["'", '"', 'a', ' ', '\n', '\r', '\\', '`', '$', ';']:
+            if not cre.fullmatch(ch):
+                total = False
+                witness = ch
+                break
+    ctx.ob(rid, 'split_unquoted_newlines:conservation', loc,
+           'split_unquoted_newlines iterates SPLIT_REGEX.split(text) (matches and gaps), so no character is lost', uses_split or total,
+           f'it uses SPLIT_REGEX.{"/".join(kinds)}(), which returns only the matched chunks, and the regex does not match {witness!r} on its own: '
+           'an unbalanced quote (apostrophe in a comment or dollar body) disappears from the output')
+    # every non-empty chunk is either a line break (new line) or appended to the current line
+    loops = [n for n in own_nodes(g.node) if isinstance(n, ast.For)]
+    ok = False
+    if len(loops) == 1:
+        ok = True
+        for p in enum_paths(loops[0].body):
+            st = p.stmts()
+            app = [x for x in st if isinstance(x, ast.Expr) and isinstance(x.value, ast.Call) and isinstance(x.value.func, ast.Attribute) and x.value.func.attr == 'append']
+            aug = [x for x in st if isinstance(x, ast.AugAssign)]
+            facts = [a for a in p.facts() if a[0] != '|']
+            empty = any((not pol) and e == src(loops[0].target) for e, pol in facts) or p.exit == 'continue' and not app and not aug
+            if not (empty or len(app) + len(aug) == 1):
+                ok = False
+    ctx.ob(rid, 'split_unquoted_newlines:every-chunk-kept', loc, 'every non-empty chunk starts a new line or is appended to the current one', ok, '')
